@@ -16,6 +16,8 @@ def run(chk):
     cerlib.run_config(chk, "C07", PREFIXES)
     # the same clauses through the WebAuthn client (its own steps around the ceremony can fail or be dropped too)
     cerlib.run_config(chk, "C07client", PREFIXES)
+    # a store that fails with the status byte 0x00 (layer A only, see CerMC.tla)
+    cerlib.run_config(chk, "C07zero", PREFIXES)
     cerlib.random_histories(chk, PREFIXES, quick_n=150)
     cerlib.finish_cov(chk,
                       "one behaviour per (request shape, fault plan over the 3 fallible store calls with 4 status classes each, cancel point -1..6); "
